@@ -95,18 +95,18 @@ theorem dataSidsL_below : ∀ (ts : List STree) (sid : Nat), sid ∈ dataSidsL t
 end
 
 mutual
-theorem below_sheight : ∀ {k t : STree}, Below k t → sheight k ≤ sheight t
+theorem cBelow_sheight : ∀ {k t : STree}, Below k t → sheight k ≤ sheight t
   | _, _, .self _ => Nat.le_refl _
   | _, _, .kid _ s i ks h => by
-    have := belowL_sheight h
+    have := cBelowL_sheight h
     simp only [sheight]; omega
-theorem belowL_sheight : ∀ {k : STree} {ts : List STree}, BelowL k ts → sheight k ≤ sheightL ts
+theorem cBelowL_sheight : ∀ {k : STree} {ts : List STree}, BelowL k ts → sheight k ≤ sheightL ts
   | _, _, .head _ t ts h => by
-    have := below_sheight h
+    have := cBelow_sheight h
     have : sheight t ≤ sheightL (t :: ts) := by simp only [sheightL]; exact Nat.le_max_left ..
     omega
   | _, _, .tail _ t ts h => by
-    have := belowL_sheight h
+    have := cBelowL_sheight h
     have : sheightL ts ≤ sheightL (t :: ts) := by simp only [sheightL]; exact Nat.le_max_right ..
     omega
 end
@@ -274,7 +274,7 @@ theorem subtreeNode_rfcC (X : SchemaX) (o : VOpts) (hno : o.noState = false) (hq
         intro c hc bf
         obtain ⟨hyp, _, k', hk', hnode, h1, h2⟩ := hnodes c hc
         have hfu : sheightL k'.kids ≤ fuel := by
-          have a := belowL_sheight hk'
+          have a := cBelowL_sheight hk'
           have b := sheight_kids k'
           omega
         exact subtreeNode_rfcC X o hno hq hD fuel c k' _ bf (hbk k' hk') hnode h1 h2 hyp hfu)
@@ -327,7 +327,7 @@ theorem validate_rfcComplete_choice (X : SchemaX) (o : VOpts) (t : List DNode) (
     intro c hc bf
     obtain ⟨hyp, _, k', hk', hnode, h1, h2⟩ := hnodes c hc
     have hfu : sheightL k'.kids ≤ walkFuel X t := by
-      have a := belowL_sheight hk'
+      have a := cBelowL_sheight hk'
       have b := sheight_kids k'
       omega
     exact subtreeNode_rfcC X o hno hq hD _ c k' _ bf hk' hnode h1 h2 hyp hfu)]
